@@ -1,4 +1,4 @@
-(* C09 model: tx.unroll and tx.sequential_unroll, written through the API model (add, add_subcircuit,
+(* C09 model (code as of f5b533f): tx.unroll and tx.sequential_unroll, written through the API model (add, add_subcircuit,
    set_type, connect, set_output, remove) in source order, and `run`, the iterated-`eval` semantics of the
    sequential machine that the property compares with.  Definitions only.
 
@@ -69,9 +69,9 @@ Definition unroll (C : Circuit) (n : nat) (sio : list (string * string)) (prefix
 
 (* ---- sequential_unroll ---- *)
 Inductive init_vals := IvNone | IvAll (t : gtype) | IvDict (l : list (string * gtype)).
-(* the unloaded-input sweep keeps the Q state inputs *)
+(* the unloaded-input sweep keeps the Q state inputs and inputs that are themselves outputs *)
 Definition remove_unloaded_inputs (c : circuit) (qs : gset string) : circuit :=
-  remove_g c (elements (filter (λ i, fanout c i = ∅ ∧ i ∉ qs) (inputs c))).
+  remove_g c (elements (filter (λ i, fanout c i = ∅ ∧ i ∉ qs ∧ is_output c i = false) (inputs c))).
 Definition lookup0 (m : iomap) (k : string) : res string :=
   match m !! k with Some (x :: _) => Ok x | Some [] => Raise IndexError | None => Raise KeyError end.
 
